@@ -170,7 +170,7 @@ class ResourceModel:
                     else:
                         base = re.match(r'^\*?\(?(\w+)', lv)
                         b = base.group(1) if base else ''
-                        root = lv.lstrip('*(')
+                        root = lv.lstrip('*(&')
                         rootname = re.match(r'^(\w+)', root)
                         rn = rootname.group(1) if rootname else ''
                         if rn in params or self._is_global(fname, rn) or self._derived_from_param(lv, params):
